@@ -268,3 +268,5 @@ def run(ctx):
     r7_reaper_cannot_die(ctx)
     r1_entry_points(ctx)
     r2_to_r6_reapers(ctx)
+    from . import C13
+    C13.r4_pool_keys(ctx)    # one key per session: a colliding key silently evicts (drops, never closes) a healthy pooled session
